@@ -43,14 +43,14 @@ theorem nibOk_succ {f incs b : Nat} (h : nibOk (f + 1) incs b = true) :
   · exact h1
 
 /-- one week: the days `d + s` (`s` the partial sums of the nibbles) of the week that starts at the real date `y-m-d`;
-the week loop ends within its fuel, and keeps the accumulator sane when the enumeration is sane -/
-theorem wlyWeek_spec (c : WlyCtx) (hp : WfInst c.proto) (nset : Nat) {y m d : Nat}
+the week loop ends within its fuel, and keeps the accumulator sane under a condition `P` that makes the enumeration sane -/
+theorem wlyWeek_spec (c : WlyCtx) (hp : WfInst c.proto) (P : Prop) (hP : P → EnumOk c.e) (nset : Nat) {y m d : Nat}
     (hv : VD y m d) (hy : y ≤ 13000000) :
     ∀ (fuel incs D ty tm td nday : Nat) (res : List Inst) (b : Nat),
       nibOk fuel incs b = true → D + b ≤ d + 6 → d ≤ D → Carry y m D ty tm td →
-      (EnumOk c.e → Acc c.r c.proto c.nti res ∧ Below res y m (D + incs % 16)) →
+      (P → Acc c.r c.proto c.nti res ∧ Below res y m (D + incs % 16)) →
       ∃ res' fin, wlyWeek c nset fuel incs ty tm td (getNdom ty tm) nday res = some (res', fin) ∧
-        (EnumOk c.e → Acc c.r c.proto c.nti res' ∧ Below res' y m (d + 7)) ∧ (fin = false → y ≤ 2099) := by
+        (P → Acc c.r c.proto c.nti res' ∧ Below res' y m (d + 7)) ∧ (fin = false → y ≤ 2099) := by
   intro fuel
   induction fuel with
   | zero => intro incs D ty tm td nday res b h; simp [nibOk] at h
@@ -81,8 +81,8 @@ theorem wlyWeek_spec (c : WlyCtx) (hp : WfInst c.proto) (nset : Nat) {y m d : Na
       have hy99 : y2 ≤ 2099 := by unfold wlyDlyMaxYear at c1; omega
       generalize (if bit c.mMask m2 = true then nday + 1 else nday) = nday'
       rw [wlyEnum_eq]
-      have hday := fun he : EnumOk c.e =>
-        day_step c.r c.proto c.nti (!bit c.mMask m2) (wlySkip c nset nday') hp he hc3 hv.1 hv.2.1
+      have hday := fun he : P =>
+        day_step c.r c.proto c.nti (!bit c.mMask m2) (wlySkip c nset nday') hp (hP he) hc3 hv.1 hv.2.1
           (by have := hv.2.2.1; omega) hy99 (hab he).1 (hab he).2
       generalize genEnum c.r c.proto c.nti (!bit c.mMask m2) (wlySkip c nset nday') y2 m2 d2 c.e.timesIx res = out
         at hday ⊢
